@@ -627,7 +627,18 @@ def _arr_any(ex, st, args, kw, node):
     return COUNT(d.data, d.shape[0]) > 0
 
 
-ARRAY_METHODS = {"tolist": _arr_tolist, "copy": _arr_copy, "astype": _arr_astype, "any": _arr_any}
+def _arr_reshape(ex, st, args, kw, node):
+    """1-D -> 2-D reshape (C order): element (r, c) is element r*ncols + c"""
+    d = ex.arr(st, args[0])
+    shp = args[1] if len(args) == 2 else Tup(args[1:])
+    if d.rank != 1 or not isinstance(shp, (Tup, tuple)) or len(shp) != 2:
+        raise Undecided("reshape other than 1-D -> (rows, columns)")
+    a, b = as_int(shp[0]), as_int(shp[1])
+    ex.safe(st, "reshape-size", a * b == d.shape[0], node)
+    return ex.alloc_arr(st, (a, b), ex.lam2(lambda r, c: ex.sel1(d, r * b + c)), d.elem, d.owner, view_of=args[0].sid)
+
+
+ARRAY_METHODS = {"tolist": _arr_tolist, "copy": _arr_copy, "astype": _arr_astype, "any": _arr_any, "reshape": _arr_reshape}
 LIST_METHODS = {"append": _list_append, "extend": _list_extend}
 DICT_METHODS = {"get": _dict_get, "keys": _dict_keys}
 STR_METHODS = {"lower": _str_lower, "endswith": _str_endswith}
